@@ -8,6 +8,7 @@ import BridgeVerif.Driver.Hands
 import BridgeVerif.Driver.Msg
 import BridgeVerif.Driver.Session
 import BridgeVerif.Driver.Json
+import BridgeVerif.Driver.Pbn
 /-! The line-protocol driver: one op per line in, one canonical line out. -/
 namespace Bridge.Driver
 
@@ -16,6 +17,7 @@ structure DState where
   play : Option PlayMode := none
   sess : XState := {}
   json : JState := {}
+  pbn : BState := {}
 
 def scoreOps (t : List String) : Option String :=
   match t with
@@ -48,6 +50,9 @@ def step (s : DState) (line : String) : DState × String :=
     else if op.startsWith "J." then
       let (a, o) := jsonOps s.json t
       ({ s with json := a }, o)
+    else if op.startsWith "B." then
+      let (a, o) := pbnOps s.pbn t
+      ({ s with pbn := a }, o)
     else if op.startsWith "M." || op.startsWith "F." then
       (s, (msgOps t).getD "bad-op")
     else if op.startsWith "H." then
